@@ -141,10 +141,22 @@ def ref_maximal(M, struct, ignore_leaps=True):
             groups.append(("simple", a, c))
     if len(used_e) != len(ends):
         return None
-    # no overlap / nesting between groups
-    spans = sorted((g[1], g[4] if g[0] == "volta" else g[2]) for g in groups)
-    for (a1, b1), (a2, b2) in zip(spans, spans[1:]):
-        if a2 < b1:
+    # groups may be disjoint or strictly nested inside a simple repeat (a < a' and end' < c: no shared
+    # boundaries, so every backward jump has one possible origin); anything else is out of the class
+    def span(g):
+        return (g[1], g[4] if g[0] == "volta" else g[2])
+
+    for g1 in groups:
+        for g2 in groups:
+            if g1 is g2:
+                continue
+            (a1, b1), (a2, b2) = span(g1), span(g2)
+            if b1 <= a2 or b2 <= a1:
+                continue  # disjoint
+            if a1 < a2 and b2 < b1 and g1[0] == "simple":
+                continue  # g2 strictly inside the simple repeat g1
+            if a2 < a1 and b1 < b2 and g2[0] == "simple":
+                continue
             return None
     # navigation: only D.C./D.S. at the very end, optional fine, segno
     kinds = sorted(s[0] for s in nav)
@@ -182,15 +194,28 @@ def ref_maximal(M, struct, ignore_leaps=True):
             if x is not None and lo < x < hi:
                 return None
 
-    def play(start, stop, with_repeats):
+    def play(start, stop, with_repeats, inside=None):
+        """measure sequence of [start, stop); `inside` = the group whose body is being played"""
         seq = []
         i = start
         while i < stop:
-            g = [g for g in groups if g[1] == i]
-            if g and (g[0][4] if g[0][0] == "volta" else g[0][2]) <= stop:
-                g = g[0]
+            cands = [g for g in groups if g[1] == i and g is not inside and span(g)[1] <= stop
+                     and (inside is None or (span(inside)[0] < span(g)[0] and span(g)[1] < span(inside)[1]))]
+            if inside is None:
+                # top level: only groups that are not nested in another group start here
+                cands = [g for g in cands if not any(h is not g and span(h)[0] < span(g)[0] and span(g)[1] < span(h)[1] for h in groups)]
+            else:
+                # directly inside `inside`: not nested in a further group in between
+                cands = [g for g in cands if not any(h is not g and h is not inside and span(h)[0] < span(g)[0] and span(g)[1] < span(h)[1]
+                                                     and span(inside)[0] < span(h)[0] and span(h)[1] < span(inside)[1] for h in groups)]
+            if len(cands) > 1:
+                return None
+            if cands:
+                g = cands[0]
                 if g[0] == "simple":
-                    body = list(range(g[1], g[2]))
+                    body = play(g[1], g[2], with_repeats, inside=g)
+                    if body is None:
+                        return None
                     seq += body * (2 if with_repeats else 1)
                     i = g[2]
                 else:
@@ -200,7 +225,7 @@ def ref_maximal(M, struct, ignore_leaps=True):
                             seq += list(range(a, b)) + list(range(b, c))
                     seq += list(range(a, b)) + list(range(c, d))
                     i = d
-            elif g:
+            elif any(g[1] == i and g is not inside and span(g)[1] > stop for g in groups):
                 return None
             else:
                 seq.append(i)
@@ -636,6 +661,10 @@ def structures(M):
         yield "volta123", [["repeat", a, c], ["ending", b, c, "1,2"], ["ending", c, d, "3"]]
     for a, b, c, d, e in itertools.combinations(B, 5):
         yield "volta1-2-3", [["repeat", a, c], ["repeat", a, d], ["ending", b, c, "1"], ["ending", c, d, "2"], ["ending", d, e, "3"]]
+    # a volta group strictly inside an outer simple repeat
+    for o1, a, b, c, d, o2 in itertools.combinations(B, 6):
+        yield "volta12-in-repeat", [["repeat", o1, o2], ["repeat", a, c], ["ending", b, c, "1"], ["ending", c, d, "2"]]
+        yield "volta123-in-repeat", [["repeat", o1, o2], ["repeat", a, c], ["ending", b, c, "1,2"], ["ending", c, d, "3"]]
     # navigation at the end
     yield "dc", [["dacapo", M]]
     for f in range(1, M):
@@ -679,6 +708,9 @@ def spaces(tier, seed):
         for cls, st in structures(M):
             core.append(dict(M=M, struct=st, content=["plain"], cls=cls))
     sp.append(Space("structures-plain", core, True, "every structure of every class over M=%s measures, one note per measure" % Ms))
+    if tier == "quick":
+        nest = [dict(M=6, struct=st, content=["plain"], cls=cls) for cls, st in structures(6) if cls.endswith("-in-repeat")]
+        sp.append(Space("volta-in-repeat-M6", nest, True, "M=6: every 1|2 and 1,2|3 volta group strictly inside an outer repeat"))
     cv = []
     for M in ([2, 3] if tier == "quick" else [2, 3, 4, 5]):
         for cls, st in structures(M):
